@@ -217,10 +217,10 @@ def year_ext(j):
     return "0" + s[1:3] if j >= 100 else "9" + s
 
 
-def write_weather(root, folder, layout, fcode, series, numheader=None, skip_years=(), windhi=None, order=None, none="-99.9"):
+def write_weather(root, folder, layout, fcode, series, numheader=None, skip_years=(), windhi=None, order=None, none="-99.9", wroot="weather"):
     """layout 0: one file per year 'MET_<fcode>.<ext>' (day-of-year column); 1: '<fcode>.csv' (iso-date);
     2: '<fcode>.w6d' (@YYYYJJJ, no tavg column).  Returns the config keys selecting it."""
-    wdir = os.path.join(root, "weather", folder)
+    wdir = os.path.join(root, wroot, folder)
     os.makedirs(wdir, exist_ok=True)
     if layout == 0:
         nh = 3 if numheader is None else numheader
@@ -235,7 +235,7 @@ def write_weather(root, folder, layout, fcode, series, numheader=None, skip_year
                        "C_deg;C_deg;C_deg;mm;%;mm_Hg;m/s;hours;MJ m-2;mm;", "55;%s;-----;-----;-----;-----;-----;-----;------;-- -;-" % (windhi or "2")]
                 if nh != 3:
                     hdr = hdr[:nh]
-                f.write("\n".join(hdr) + "\n")
+                f.write("".join(h + "\n" for h in hdr))
                 for d, r in recs:
                     # optional columns (reference evapotranspiration, saturation deficit, sunshine hours): the record's value or the sentinel
                     f.write(";".join([r["tavg"], r["tmin"], r["tmax"], r.get("et0", none), r["rh"], r.get("verd", none), r["wind"], r.get("sund", none), r["rad"],
